@@ -31,18 +31,23 @@ DECIDED = ["constraint families present and complete", "ignoring is the only way
 NOT_DECIDED = ["the objective is the optimum over exactly the solutions satisfying the constraints",
                "ignoring an element has no other influence than removing its rows (solver-level statement)"]
 
-ALLOWED_GUARDS = [
-    r"^not \(\(q\d_0, q\d_1\) in self\.edges_to_ignore\)$",
-    r"^(not \()?\(q\d_0, q\d_1, q\d_0\) in self\.edges_set_to_(zero|one)\)?$",
-    r"^not \(self\.is_solved\(\)\)$",
-    r"^(not \()?len\(self\.path_length_factors\) (> 0|== 0)\)?$",
-    r"^not \(\(\(q\d_0, q\d_1\) in subpath_constraint_edges\) and \(self\.subpath_constraints_coverage == 1\)\)$",
-    r"^not \(\(\(q\d_0, q\d_1\) in subset_constraint_edges\) and \(self\.subset_constraints_coverage == 1\)\)$",
-    r"^(not \()?self\.flow_attr (not )?in EDGEATTR\(.*\)$",
+ALLOWED_ATOMS = [
+    r"^\(q\d_0, q\d_1\) in self\.edges_to_ignore$",
+    r"^\(q\d_0, q\d_1, q\d_0\) in self\.edges_set_to_(zero|one)$",
+    r"^self\._is_solved$|^self\.is_solved\(\)$",
+    r"^self\.path_length_factors$",
+    r"^\(q\d_0, q\d_1\) in sub(path|set)_constraint_edges$",
+    r"^EQ0\[-1 \+ self\.sub(path|set)_constraints_coverage\]$",
+    r"^self\.flow_attr in EDGEATTR\(.*\)$",
 ]
+IGNORE_ATOM = r"^\(q\d_0, q\d_1\) in self\.edges_to_ignore$"
 
 
 def ignore_only_skip(prog: Program, rep, RID: str):
+    """Decided on the guard *formula* of every per-edge family (truth table over canonical atoms): the atoms the guard
+    depends on are the ignore-set membership, the safety flags and the documented cover skip, and the guard implies that
+    the edge is not ignored."""
+    from sa import boolnf as B
     n = 0
     for cname in K_MODELS:
         cls = prog.cls(cname)
@@ -55,15 +60,18 @@ def ignore_only_skip(prog: Program, rep, RID: str):
                 if e["kind"] not in ("add_constraint", "add_binary_continuous_product_constraint", "add_integer_continuous_product_constraint"):
                     continue
                 n += 1
-                bad = [g for g in e["guards"] if not any(re.match(p, g) for p in ALLOWED_GUARDS)]
+                gf = e["_guard"]
+                rel = B.relevant_atoms(gf)
+                bad = [a for a in rel if not any(re.match(p, a) for p in ALLOWED_ATOMS)]
                 key = f"{cname}.{f.name}:{e['_fid'][:60]}"
-                loc = f"{f.module.relpath}:{e['_line']}"
-                has_ignore = any("in self.edges_to_ignore" in g for g in e["guards"])
+                loc = f"{e.get('_file') or f.module.relpath}:{e['_line']}"
+                ign = [a for a in rel if re.match(IGNORE_ATOM, a)]
+                has_ignore = bool(ign) and B.implies(gf, B.mk_not(B.atom(ign[0])))
                 if bad:
-                    rep.violation(RID, key, f"per-edge family is skipped under an extra guard {bad}: edges other than the ignored ones lose their rows "
+                    rep.violation(RID, key, f"per-edge family is skipped under an extra guard {bad} (guard: {B.key(gf)[:200]}): edges other than the ignored ones lose their rows "
                                   "(their weight no longer influences feasibility/objective)", loc)
                 elif not has_ignore:
-                    rep.violation(RID, key, "per-edge family is imposed on ignored edges as well (no `in self.edges_to_ignore` skip): "
+                    rep.violation(RID, key, "per-edge family is imposed on ignored edges as well (the guard does not imply `not in self.edges_to_ignore`): "
                                   "ignoring an element does not remove its influence", loc)
                 else:
                     rep.ok(RID, key, "skipped only for ignored edges (+ safety flags / documented cover skip)", loc)
